@@ -110,6 +110,13 @@ func peach(fm *Frame, opts peachOpt, f Callable, inputs Inputs) error {
 				// held, so don't start a task.
 				return
 			}
+			// A task that finished while this one was waiting for a slot may
+			// have broken the loop or failed; with a single worker this keeps
+			// peach equivalent to each.
+			if atomic.LoadInt32(&broken) != 0 {
+				workerSema.Release(1)
+				return
+			}
 		}
 		wg.Add(1)
 		go func() {
